@@ -60,17 +60,18 @@ type coMsg struct {
 
 // Interp is one model run.
 type Interp struct {
-	G        *Table
-	StrMeta  *Table
-	th       *thread
-	main     *thread
-	Steps    int
-	MaxSteps int
-	MaxDepth int
-	Trace    []string
-	ids      map[interface{}]int
-	done     chan struct{}
-	usesVA   map[*last.Func]bool
+	resumeDepth int // nested Resume calls in progress
+	G           *Table
+	StrMeta     *Table
+	th          *thread
+	main        *thread
+	Steps       int
+	MaxSteps    int
+	MaxDepth    int
+	Trace       []string
+	ids         map[interface{}]int
+	done        chan struct{}
+	usesVA      map[*last.Func]bool
 	// statistics for evidence
 	StmtKinds map[string]int
 	ExprKinds map[string]int
